@@ -499,3 +499,164 @@ Proof.
   rewrite O. cbn [orb].
   rewrite (all_ge_key a b Ha Hb), (any_gt_key a b Ha Hb). reflexivity.
 Qed.
+
+(* ------------------------------------------------------------------ *)
+(* joining: the comparison of two joined vectors is decided by the first
+   parts unless these are equal *)
+Lemma zlt_app : forall a b c d, length a = length b ->
+  zlt (a ++ c) (b ++ d) = if zlt a b then true else if zlt b a then false else zlt c d.
+Proof.
+  induction a as [|x a IH]; intros [|y b] c d L; try discriminate L; cbn [app zlt].
+  - destruct c, d; reflexivity.
+  - injection L as L. destruct (x <? y) eqn:E1; [reflexivity|]. destruct (y <? x) eqn:E2; [reflexivity|].
+    apply IH. exact L.
+Qed.
+
+Lemma combine_lex : forall a b c d, nonan_vec a -> nonan_vec b -> nonan_vec c -> nonan_vec d ->
+  length a = length b ->
+  lt_lex (combine_fit a c) (combine_fit b d) =
+  if lt_lex a b then true else if lt_lex b a then false else lt_lex c d.
+Proof.
+  intros a b c d Ha Hb Hc Hd L. unfold combine_fit. cbn [app].
+  rewrite (lt_lex_key _ _ (nonan_app a c Ha Hc) (nonan_app b d Hb Hd)).
+  rewrite (lt_lex_key a b Ha Hb), (lt_lex_key b a Hb Ha), (lt_lex_key c d Hc Hd).
+  unfold kv. rewrite !map_app. apply zlt_app. rewrite !map_length. exact L.
+Qed.
+
+Lemma combine_app : forall a b, combine_fit a b = a ++ b.
+Proof. reflexivity. Qed.
+
+(* ------------------------------------------------------------------ *)
+(* element-wise arithmetic *)
+Definition zip_with (op : f64 -> f64 -> f64) (a b : vec) : vec :=
+  map (fun p => op (fst p) (snd p)) (combine a b).
+
+Lemma set_nth_app : forall pre x rest v, set_nth (length pre) v (pre ++ x :: rest) = pre ++ v :: rest.
+Proof. induction pre as [|h pre IH]; intros; cbn [length app set_nth]; [reflexivity|]. rewrite IH. reflexivity. Qed.
+
+Lemma nth_error_app_len : forall (pre : vec) x rest, nth_error (pre ++ x :: rest) (length pre) = Some x.
+Proof. induction pre as [|h pre IH]; intros; cbn [length app nth_error]; [reflexivity|]. apply IH. Qed.
+
+Lemma nth_error_app_end : forall (pre : vec), nth_error (pre ++ []) (length pre) = None.
+Proof. induction pre as [|h pre IH]; cbn [length app nth_error]; [reflexivity|]. apply IH. Qed.
+
+Definition compound_body (op : f64 -> f64 -> f64) (f : vec) (i : nat) (cur : vec) : option vec :=
+  match nth_error cur i, nth_error f i with
+  | Some x, Some y => Some (set_nth i (op x y) cur)
+  | _, _ => None
+  end.
+
+Lemma for_idx_compound : forall op rest pre fpre fr,
+  length fpre = length pre -> (length rest <= length fr)%nat ->
+  for_idx (length rest) (length pre) (compound_body op (fpre ++ fr)) (pre ++ rest) =
+  Some (pre ++ zip_with op rest fr).
+Proof.
+  intros op. induction rest as [|x rest IH]; intros pre fpre fr Lp Lr.
+  - cbn [length for_idx zip_with combine map]. reflexivity.
+  - destruct fr as [|y fr]; [cbn [length] in Lr; lia|].
+    cbn [length for_idx]. unfold compound_body at 1.
+    rewrite nth_error_app_len. rewrite <- Lp, nth_error_app_len, Lp.
+    rewrite set_nth_app.
+    replace (pre ++ op x y :: rest) with ((pre ++ [op x y]) ++ rest) by (rewrite <- app_assoc; reflexivity).
+    replace (fpre ++ y :: fr) with ((fpre ++ [y]) ++ fr) by (rewrite <- app_assoc; reflexivity).
+    replace (S (length pre)) with (length (pre ++ [op x y])) by (rewrite app_length; cbn [length]; lia).
+    rewrite IH.
+    + rewrite <- app_assoc. reflexivity.
+    + rewrite !app_length. cbn [length]. lia.
+    + cbn [length] in Lr. lia.
+Qed.
+
+Lemma for_idx_compound_none : forall op rest pre fpre fr,
+  length fpre = length pre -> (length fr < length rest)%nat ->
+  for_idx (length rest) (length pre) (compound_body op (fpre ++ fr)) (pre ++ rest) = None.
+Proof.
+  intros op. induction rest as [|x rest IH]; intros pre fpre fr Lp Lr.
+  - cbn [length] in Lr. lia.
+  - cbn [length for_idx]. unfold compound_body at 1. rewrite nth_error_app_len.
+    destruct fr as [|y fr].
+    + rewrite <- Lp, nth_error_app_end. reflexivity.
+    + rewrite <- Lp, nth_error_app_len, Lp, set_nth_app.
+      replace (pre ++ op x y :: rest) with ((pre ++ [op x y]) ++ rest) by (rewrite <- app_assoc; reflexivity).
+      replace (fpre ++ y :: fr) with ((fpre ++ [y]) ++ fr) by (rewrite <- app_assoc; reflexivity).
+      replace (S (length pre)) with (length (pre ++ [op x y])) by (rewrite app_length; cbn [length]; lia).
+      apply IH.
+      * rewrite !app_length. cbn [length]. lia.
+      * cbn [length] in Lr. lia.
+Qed.
+
+Lemma compound_elementwise : forall op a b, (length a <= length b)%nat ->
+  compound op a b = Some (zip_with op a b).
+Proof.
+  intros op a b L. unfold compound.
+  exact (for_idx_compound op a [] [] b eq_refl L).
+Qed.
+
+Lemma compound_contract : forall op a b, (length b < length a)%nat -> compound op a b = None.
+Proof.
+  intros op a b L. unfold compound.
+  exact (for_idx_compound_none op a [] [] b eq_refl L).
+Qed.
+
+Lemma zip_with_length : forall op a b, (length a <= length b)%nat -> length (zip_with op a b) = length a.
+Proof. intros op a b L. unfold zip_with. rewrite map_length, combine_length. lia. Qed.
+
+Lemma zip_with_nth : forall op a b i x y, nth_error a i = Some x -> nth_error b i = Some y ->
+  nth_error (zip_with op a b) i = Some (op x y).
+Proof.
+  intros op. induction a as [|h a IH]; intros [|k b] [|i] x y Hx Hy; cbn [nth_error] in *; try discriminate.
+  - injection Hx as <-. injection Hy as <-. reflexivity.
+  - cbn [zip_with combine map nth_error]. apply (IH b i x y Hx Hy).
+Qed.
+
+Lemma map_nth_pointwise : forall (g : f64 -> f64) f i, nth_error (map g f) i = option_map g (nth_error f i).
+Proof. intros g f i. apply nth_error_map. Qed.
+
+(* distance *)
+Lemma inner_product_fold : forall a b init, (length a <= length b)%nat ->
+  inner_product a b init =
+  Some (fold_left F64.add (zip_with (fun x y => F64.abs (F64.sub x y)) a b) init).
+Proof.
+  induction a as [|x a IH]; intros [|y b] init L; cbn [inner_product zip_with combine map fold_left fst snd];
+    try reflexivity; cbn [length] in L; try lia.
+  apply IH. lia.
+Qed.
+
+Lemma distance_is_sum_abs : forall a b, length a = length b ->
+  distance a b = Some (fold_left F64.add (zip_with (fun x y => F64.abs (F64.sub x y)) a b) F64.zero).
+Proof.
+  intros a b L. unfold distance. rewrite L, Nat.eqb_refl. apply inner_product_fold. lia.
+Qed.
+
+Lemma distance_contract : forall a b, length a <> length b -> distance a b = None.
+Proof. intros a b L. unfold distance. destruct (Nat.eqb_spec (length a) (length b)); [contradiction|reflexivity]. Qed.
+
+(* ------------------------------------------------------------------ *)
+(* model_measurements::operator>= is a strict partial order (sic) on each family *)
+Lemma geb_trans_key : forall x y z, nonan x -> nonan y -> nonan z ->
+  F64.geb x y = true -> F64.geb y z = true -> F64.geb x z = true.
+Proof.
+  intros x y z Hx Hy Hz. rewrite (geb_key x y Hx Hy), (geb_key y z Hy Hz), (geb_key x z Hx Hz). lia.
+Qed.
+
+Lemma mm_ge_irrefl : forall m, nonan_vec (m_fitness m) -> mm_ge m m = false.
+Proof. intros m H. unfold mm_ge. rewrite (dom_irrefl _ H). reflexivity. Qed.
+
+Lemma mm_ge_asym : forall l r, nonan_vec (m_fitness l) -> nonan_vec (m_fitness r) ->
+  mm_ge l r = true -> mm_ge r l = false.
+Proof.
+  intros l r Hl Hr H. unfold mm_ge in *. apply andb_true_iff in H. destruct H as [H _].
+  rewrite (dom_asym _ _ Hl Hr H). reflexivity.
+Qed.
+
+Lemma mm_ge_trans : forall n a b c,
+  in_family n (m_fitness a) -> in_family n (m_fitness b) -> in_family n (m_fitness c) ->
+  nonan_vec (m_fitness a) -> nonan_vec (m_fitness b) -> nonan_vec (m_fitness c) ->
+  nonan (m_accuracy a) -> nonan (m_accuracy b) -> nonan (m_accuracy c) ->
+  mm_ge a b = true -> mm_ge b c = true -> mm_ge a c = true.
+Proof.
+  intros n a b c Fa Fb Fc Ha Hb Hc Na Nb Nc H1 H2. unfold mm_ge in *.
+  apply andb_true_iff in H1. apply andb_true_iff in H2. destruct H1 as [D1 G1]. destruct H2 as [D2 G2].
+  apply andb_true_iff. split.
+  - exact (dom_trans n _ _ _ Fa Fb Fc Ha Hb Hc D1 D2).
+  - exact (geb_trans_key _ _ _ Na Nb Nc G1 G2).
+Qed.
